@@ -59,11 +59,41 @@ class ExactRatio:
         raise CrosshairUnsupported(f"ExactRatio: unsupported operation {name}")
 
 
+def _pin_adversarial(self, c):
+    """Solver-guided concretisation for a float division that cannot be shown exact: ask the solver for a dividend on this
+    path that sits just below a multiple of the divisor and beyond 2**53 (where a double rounds the quotient up to the next
+    integer), pin the symbolic dividend to that single value in one branch (the division then runs in real IEEE arithmetic,
+    concretely) and leave the complementary branch UNKNOWN.  A wrong result shows up as an ordinary counterexample."""
+    space = context_statespace()
+    a = self.var
+    # beyond 2**55 the spacing of doubles near a/c exceeds 2/c, so (k*c - 1)/c rounds to exactly k
+    cands = [z3.And(a >= 2 ** 55, a % c == c - 1), z3.And(a <= -(2 ** 55), (-a) % c == c - 1), a >= 2 ** 55, a <= -(2 ** 55)]
+    for cond in cands:
+        space.solver.push()
+        try:
+            space.solver.add(cond)
+            if space.solver.check() != z3.sat:
+                continue
+            val = space.solver.model().eval(a, model_completion=True).as_long()
+        finally:
+            space.solver.pop()
+        STATS["adversarial"] = STATS.get("adversarial", 0) + 1
+        if space.smt_fork(a == z3.IntVal(val), probability_true=1.0):
+            return val
+        raise CrosshairUnsupported("float division on a symbolic int: only the adversarial witness branch is explored")
+    return None
+
+
 def _truediv(self, other):
     with NoTracing():
         if type(other) is int and 0 < other < 2 ** 20:
             STATS["ratio"] += 1
             return ExactRatio(self.var, other)
+        if type(other) is int and other > 0:
+            val = _pin_adversarial(self, other)
+            if val is not None:
+                return val / other
+            raise CrosshairUnsupported("float division on a symbolic int outside the exactly-modelled range")
     return _orig_truediv(self, other)
 
 
